@@ -41,10 +41,23 @@ class Pool:
         os.makedirs(os.path.join(ctl, "release"), exist_ok=True)
         self.enqueued = []   # (tid, name, deps) in order of acceptance
         self.cancels = []    # tids
+        self.refused = []    # names of the enqueue requests the pool failed on (fault injection)
         outer = self
+
+        self.run_enq = 0     # enqueue requests since the driver last reset the counter
+        self.fault = None    # (k, action): the k-th enqueue request is not accepted - the pool fails on it after
+                             # calling action() (e.g. killing the client) - as if the pool had gone away
 
         class RecScheduler(local.Scheduler):
             async def enqueue_task(self, name, script, working_dir, time_limit, deps):
+                outer.run_enq += 1
+                f = outer.fault
+                if f is not None and outer.run_enq == f[0]:
+                    outer.fault = None
+                    outer.refused.append(name)
+                    if f[1] is not None:
+                        f[1]()
+                    raise ConnectionResetError("simulated failure of the worker pool")
                 tid = await super().enqueue_task(name=name, script=script, working_dir=working_dir, time_limit=time_limit, deps=deps)
                 outer.enqueued.append((tid, name, list(deps) if isinstance(deps, (list, tuple)) else deps))
                 return tid
@@ -65,6 +78,9 @@ class Pool:
 
     def _run(self, cores):
         asyncio.set_event_loop(self.loop)
+        # (a connection handler that dies - injected pool failure, malformed request - is reported through what the
+        # clients observe, not through the loop's default "Unhandled exception" print)
+        self.loop.set_exception_handler(lambda loop, context: None)
         self.sched = self._sched_cls(self.wd, cores)
         self.server = self._local.Server(self.sched)
         srv = self.loop.run_until_complete(asyncio.start_server(self.server.handle_connection, "127.0.0.1", 0))
